@@ -95,6 +95,171 @@ func init() {
 		}
 		return fmt.Sprintf("last=%s halt=%d:%s:%s:%v increasing=%v faithful=%v untouched=%v", lastSeen, last.Depth, fmtScore(last.Score), pvStr(last.Moves), herr == nil, increasing, faithful, before == after)
 	})
+	registerEval("iterlate", func(a []string) string {
+		// iterlate <limit> <fen6>: the listener reads the reports only after the analysis has had time to finish (tiny trees,
+		// limits beyond any buffer size): what it then finds must end with the deepest completed iteration - the limit, or the
+		// depth at which a forced mate within the depth ended it - and that is what Halt returns
+		limit, _ := strconv.Atoi(a[0])
+		e := newEngine(0, engine.Options{})
+		ctx := context.Background()
+		if err := e.Reset(ctx, strings.Join(a[1:], " ")); err != nil {
+			return "err"
+		}
+		out, err := e.Analyze(ctx, searchctl.Options{DepthLimit: lang.Some(uint(limit))})
+		if err != nil {
+			return "err-analyze"
+		}
+		time.Sleep(400 * time.Millisecond * loadScale())
+		var seen []search.PV
+		done := make(chan struct{})
+		go func() {
+			for pv := range out {
+				seen = append(seen, pv)
+			}
+			close(done)
+		}()
+		select {
+		case <-done:
+		case <-time.After(20 * time.Second * loadScale()):
+			return "hang"
+		}
+		last, _ := e.Halt(ctx)
+		if len(seen) == 0 {
+			return "MISMATCH nothing reported"
+		}
+		l := seen[len(seen)-1]
+		ab, _ := searchCfg("full-static")
+		_, s, moves, _ := ab.Search(ctx, &search.Context{TT: search.NoTranspositionTable{}}, e.Board(), l.Depth)
+		if s != l.Score || pvStr(moves) != pvStr(l.Moves) {
+			return fmt.Sprintf("MISMATCH last report of depth %d is not the result of a direct search to that depth", l.Depth)
+		}
+		if l.Depth != limit && !mateWithin(l.Score, l.Depth) {
+			return fmt.Sprintf("MISMATCH analysis with depth limit %d ended with a last report of depth %d (score %s)", limit, l.Depth, fmtScore(l.Score))
+		}
+		if last.Depth != l.Depth || last.Score != l.Score {
+			return fmt.Sprintf("MISMATCH Halt returns depth %d, the last report has depth %d", last.Depth, l.Depth)
+		}
+		for k := 1; k < len(seen); k++ {
+			if seen[k-1].Depth >= seen[k].Depth {
+				return "MISMATCH report depths not increasing"
+			}
+		}
+		return "ok"
+	})
+	registerEval("reanalyse", func(a []string) string {
+		// reanalyse <kind> <hashMB> <fen6> ; l1 l2 ... : successive analyses of ONE position on one engine (table kept between
+		// them) with the given depth limits: each reports exactly the depths 1..limit (or stops at a forced mate within the depth),
+		// every report equal to a direct table-free search of that depth, and ends by itself
+		kind := a[0]
+		hash, _ := strconv.Atoi(a[1])
+		i := 2
+		for i < len(a) && a[i] != ";" {
+			i++
+		}
+		start := strings.Join(a[2:i], " ")
+		ctx := context.Background()
+		var e *engine.Engine
+		if kind == "morlock" {
+			e = engine.New(ctx, kind, "x", search.AlphaBeta{Eval: search.Leaf{Eval: eval.Material{}}}, engine.WithOptions(engine.Options{Hash: uint(hash)}),
+				engine.WithTable(search.NewMinDepthTranspositionTable(1)))
+		} else {
+			e = engine.New(ctx, kind, "x", histEngines()[kind](&gate{}), engine.WithOptions(engine.Options{Hash: uint(hash)}))
+		}
+		if err := e.Reset(ctx, start); err != nil {
+			return "err"
+		}
+		ref := histEngines()["plain"](&gate{})
+		if kind != "morlock" {
+			ref = histEngines()[kind](&gate{})
+		}
+		for _, ls := range a[i+1:] {
+			limit, err := strconv.Atoi(ls)
+			if err != nil {
+				continue
+			}
+			out, err := e.Analyze(ctx, searchctl.Options{DepthLimit: lang.Some(uint(limit))})
+			if err != nil {
+				return "err-analyze"
+			}
+			var seen []search.PV
+			done := make(chan struct{})
+			go func() {
+				for pv := range out {
+					seen = append(seen, pv)
+				}
+				close(done)
+			}()
+			select {
+			case <-done:
+			case <-time.After(30 * time.Second * loadScale()):
+				e.Halt(ctx)
+				var ds []int
+				for _, pv := range seen {
+					ds = append(ds, pv.Depth)
+				}
+				return fmt.Sprintf("MISMATCH analysis with depth limit %d did not end by itself; reported depths %v", limit, ds)
+			}
+			e.Halt(ctx)
+			if len(seen) == 0 {
+				return fmt.Sprintf("MISMATCH analysis with depth limit %d reported nothing", limit)
+			}
+			lastD := 0
+			for _, pv := range seen {
+				if pv.Depth <= lastD || pv.Depth > limit {
+					return fmt.Sprintf("MISMATCH analysis with depth limit %d reported depth %d after depth %d", limit, pv.Depth, lastD)
+				}
+				lastD = pv.Depth
+				_, sc, _, err := ref.Search(ctx, &search.Context{TT: search.NoTranspositionTable{}}, e.Board(), pv.Depth)
+				if err != nil || sc != pv.Score {
+					return fmt.Sprintf("MISMATCH limit %d: depth %d reported score %s, a direct table-free search gives %s", limit, pv.Depth, fmtScore(pv.Score), fmtScore(sc))
+				}
+			}
+			// the channel keeps only the latest report, so gaps are possible; the first analysis' end is not: the limit or a mate
+			if lastD != limit && !mateWithin(seen[len(seen)-1].Score, lastD) {
+				return fmt.Sprintf("MISMATCH analysis with depth limit %d ended at depth %d", limit, lastD)
+			}
+		}
+		return "ok"
+	})
+	registerEval("resetrace", func(a []string) string {
+		// resetrace <n> <hashMB>: Analyze, then Reset to the same position with the same table size while the halted search may
+		// still be unwinding (Halt only signals it), n times; meant for the race-detector build. Afterwards the engine must work.
+		n, _ := strconv.Atoi(a[0])
+		hash, _ := strconv.Atoi(a[1])
+		ctx := context.Background()
+		e := engine.New(ctx, "r", "x", search.AlphaBeta{Eval: search.Leaf{Eval: eval.Material{}}}, engine.WithOptions(engine.Options{Hash: uint(hash)}))
+		start := "r3k2r/p1ppqpb1/bn2pnp1/3PN3/1p2P3/2N2Q1p/PPPBBPPP/R3K2R w KQkq - 0 1"
+		for k := 0; k < n; k++ {
+			if err := e.Reset(ctx, start); err != nil {
+				return "err"
+			}
+			out, err := e.Analyze(ctx, searchctl.Options{})
+			if err != nil {
+				return "err-analyze"
+			}
+			go func() {
+				for range out {
+				}
+			}()
+			time.Sleep(time.Duration(1+k%7) * time.Millisecond)
+		}
+		if err := e.Reset(ctx, fen.Initial); err != nil {
+			return "err"
+		}
+		o2, err := e.Analyze(ctx, searchctl.Options{DepthLimit: lang.Some(uint(2))})
+		if err != nil {
+			return "err-analyze"
+		}
+		var last search.PV
+		for pv := range o2 {
+			last = pv
+		}
+		e.Halt(ctx)
+		if last.Depth != 2 || len(last.Moves) == 0 {
+			return "MISMATCH the engine does not analyse any more after the resets"
+		}
+		return "ok"
+	})
 	registerEval("iterhalt", func(a []string) string {
 		// iterhalt <gateN> <fen6>: a halt that arrives while depth 1 is still running must wait for it
 		n, _ := strconv.Atoi(a[0])
@@ -204,6 +369,45 @@ func init() {
 			line := fmt.Sprintf("published iterx %s %d %s ; %s", kind, limit, start, strings.Join(moves, " "))
 			o.do(line)
 			o.Count("iterx:" + kind)
+			o.Nontrivial(line)
+		}
+		// (2b) a listener that comes late: tiny trees, limits beyond any plausible buffer
+		for k, f := range []string{"7k/5Q2/6K1/8/8/8/8/8 b - - 0 1", "5k2/5P2/5K2/8/8/8/8/8 b - - 0 1", "7k/7P/7K/8/8/8/8/8 b - - 0 1", "k7/8/K7/8/8/8/8/8 b - - 0 1"} {
+			for _, lim := range []int{3, 17, 40} {
+				if k == 3 && lim > 3 { // the last one has a (small) tree: K v K is not drawn until a capture leads to it
+					lim = 9
+				}
+				if lim == 40 && !thorough && r.Intn(2) == 0 {
+					continue
+				}
+				line := fmt.Sprintf("published iterlate %d %s", lim, f)
+				o.do(line)
+				o.Count("iterlate")
+				o.Nontrivial(line)
+			}
+		}
+		// (2c) successive analyses of one position with different limits on one engine, table kept between them
+		ra := 4
+		if thorough {
+			ra = 60
+		}
+		for i := 0; i < ra; i++ {
+			kind := []string{"morlock", "plain", "plain", "turochamp"}[i%4]
+			start := corpus[r.Intn(len(corpus))]
+			if i%2 == 0 {
+				start = fen.Initial
+			}
+			lims := [][]int{{4, 2, 1, 3}, {3, 3, 1}, {2, 4, 2}, {1, 3, 2, 4}}[r.Intn(4)]
+			if kind == "turochamp" {
+				lims = [][]int{{2, 1, 2}, {1, 2, 1}}[r.Intn(2)]
+			}
+			var ls []string
+			for _, l := range lims {
+				ls = append(ls, strconv.Itoa(l))
+			}
+			line := fmt.Sprintf("published reanalyse %s %d %s ; %s", kind, []int{0, 1, 1, 2}[r.Intn(4)], start, strings.Join(ls, " "))
+			o.do(line)
+			o.Count("reanalyse:" + kind)
 			o.Nontrivial(line)
 		}
 		// (3) the clock through the UCI driver: whatever else the go command carries (increments, moves to go), an open-ended
